@@ -4,9 +4,14 @@ package main
 
 import (
 	"fmt"
+	"math/big"
 	"runtime"
 	"strings"
 	"sync"
+	"sync/atomic"
+	"time"
+
+	"github.com/NethermindEth/juno/core/felt"
 
 	"verif/harness/lib"
 )
@@ -151,10 +156,10 @@ func (c *ctx) runTrieJob(j *trieJob, out chan<- batch) {
 		if verifier == "trie2" {
 			// the strict model verifier as the independent one, and the legacy-style verifier
 			// (felts only) on the same node set
-			add(check{line: "v2 001 " + rootHex + " " + key + p.toks(hf), truth: truth, honest: true, independent: true,
+			add(check{line: "v2 0011 " + rootHex + " " + key + p.toks(hf), truth: truth, honest: true, independent: true,
 				sig: sig, replay: mk(sig, "none", -1, rootHex, key, p, true)})
 		}
-		add(check{line: "vL 001 " + rootHex + " " + key + p.toks(hf), truth: truth, honest: true, independent: true,
+		add(check{line: "vL 0011 " + rootHex + " " + key + p.toks(hf), truth: truth, honest: true, independent: true,
 			sig: sig, replay: mk(sig, "none", -1, rootHex, key, p, true)})
 		if pvTail != "" {
 			// the model's prover on the rebuilt tree must return the same nodes in the same order
@@ -229,9 +234,30 @@ func (c *ctx) runTrieJob(j *trieJob, out chan<- batch) {
 			}
 			tc := check{line: c.modelLine(verifier, t.Root, t.Key, t.Proof, spec.Hash), sig: tsig,
 				replay: mk(tsig, t.Kind, t.Node, t.Root, t.Key, t.Proof, thonest)}
-			tc.impl = realVerify(verifier, hf, &root, t.Key, t.Proof)
+			switch {
+			case t.KeyPlus:
+				orig := tc.replay
+				tc.replay = func() any { v := orig().(verifyReplay); v.KeyPlus = true; return v }
+				kf := bitsToFelt(t.Key)
+				kf.Add(&kf, &twoPow251)
+				tc.impl = realVerifyFelt(verifier, hf, &root, &kf, t.Proof, []time.Duration{verifyDeadline, 2 * verifyDeadline})
+			case strings.HasSuffix(t.Kind, "-plain") && strings.HasPrefix(t.Kind, "embed-") && c.cfg2[3] == '0' &&
+				embeddedWalkLoops(t.Proof, t.Root, t.Key):
+				// the verifier of this tree does not return on this input: run it once per run (the call
+				// is abandoned after the deadline and keeps a core busy), otherwise only count
+				if atomic.AddInt32(&c.hangsRun, 1) <= 1 {
+					kf := bitsToFelt(t.Key)
+					tc.impl = realVerifyFelt(verifier, hf, &root, &kf, t.Proof, []time.Duration{15 * time.Second, 45 * time.Second})
+				} else {
+					res.Hit("tamper:trie2:embed-plain:predicted-hang-not-run")
+				}
+			default:
+				tc.impl = realVerify(verifier, hf, &root, t.Key, t.Proof)
+			}
 			switch {
 			case t.NoOracle:
+			case t.KeyPlus:
+				tc.truth = "0" // key + 2^251 is not a key of any trie of height 251
 			case strings.HasPrefix(t.Kind, "honest-"):
 				tc.truth, tc.honest = truth, true
 			case t.Kind == "root-changed":
@@ -261,8 +287,67 @@ func tamperClass(kind string) string {
 		return "altered-node-with-stale-cached-hash"
 	case strings.HasPrefix(kind, "retag-") && strings.HasSuffix(kind, "-h2v"):
 		return "hash-child-retyped-as-value"
+	case strings.HasPrefix(kind, "embed-") && strings.HasSuffix(kind, "-plain"):
+		return "embedded-child-without-cached-hash"
+	case strings.HasPrefix(kind, "embed-") && strings.HasSuffix(kind, "-cached"):
+		return "embedded-child-with-cached-hash"
 	}
 	return kind
+}
+
+var twoPow251 = func() felt.Felt {
+	var f felt.Felt
+	f.SetBigInt(new(big.Int).Lsh(big.NewInt(1), 251))
+	return f
+}()
+
+// embeddedWalkLoops predicts, for a node set with embedded children WITHOUT cached hash and a verifier
+// that walks the node as given, whether the walk returns at all (it re-enters the same node with the
+// key shortened; once the key is empty a binary node always goes left). Used only to avoid calling a
+// function that does not return.
+func embeddedWalkLoops(p Proof, rootHex, key string) bool {
+	idx := map[string]int{}
+	for i := range p {
+		idx[p[i].Key] = i
+	}
+	cur := rootHex
+	for steps := 0; steps < 2000; steps++ {
+		i, ok := idx[cur]
+		if !ok {
+			return false
+		}
+		n := &p[i]
+		var c Child
+		if n.Kind == "B" {
+			c = n.L
+			if len(key) > 0 && key[0] == '1' {
+				c = n.R
+			}
+			if len(key) > 0 {
+				key = key[1:]
+			}
+		} else {
+			m := min(len(n.Path), len(key))
+			if n.Path[:m] != key[:m] {
+				return false
+			}
+			c = n.C
+			key = key[m:]
+		}
+		switch c.tag() {
+		case 'p':
+		case 'e':
+			cur = c.F
+		case 'h':
+			if len(key) == 0 {
+				return false
+			}
+			cur = c.F
+		default:
+			return false
+		}
+	}
+	return true
 }
 
 func sizeBucket(n int) string {
